@@ -281,6 +281,13 @@ func validRaw(r *tbl.Raw) string {
 	return ""
 }
 
+func trackID(t int, dup bool) uint32 {
+	if dup && t > 0 {
+		return uint32(t) // tracks 1 and 2 share id 1
+	}
+	return uint32(t + 1)
+}
+
 type fileStats struct {
 	runs, ok, errs int
 	why            map[string]int
@@ -293,6 +300,9 @@ func files(seed uint64, n int, bin, tmp string) {
 	opt := tbl.GenOpt{MaxEntries: 4, MaxChunks: 3, MaxSpc: 4, ZeroDeltaPct: 0, VaryIDPct: 30, BigPct: 0}
 	for fi := 0; fi < n; fi++ {
 		nt := rng.Range(1, 3)
+		// one file in 16 with several tracks carries the same track id twice (not a valid file: the tool must refuse it,
+		// finding C10-F10; a success goes through the ordinary output checks)
+		dupIDs := nt > 1 && rng.Intn(16) == 0
 		var tracks []*trackSpec
 		var raws []*tbl.Raw
 		hasVideo := rng.Intn(4) > 0
@@ -309,7 +319,7 @@ func files(seed uint64, n int, bin, tmp string) {
 				media = "subtitle" // neither "vide" nor "soun": never the reference track
 			}
 			ts := uint32(rng.Pick(1000, 600, 24, 90000, 48000, 12800))
-			tracks = append(tracks, &trackSpec{id: uint32(t + 1), timescale: ts, media: media, raw: r, edts: rng.Intn(3) == 0})
+			tracks = append(tracks, &trackSpec{id: trackID(t, dupIDs), timescale: ts, media: media, raw: r, edts: rng.Intn(3) == 0})
 			raws = append(raws, r)
 		}
 		// in half of the files the other tracks last at least as long as the first video (else first) track,
